@@ -84,7 +84,7 @@ impl Mon {
             self.frame.push(b);
             match r {
                 Out::None => {
-                    if self.frame.len() % 4 == 0 {
+                    if self.tail_looks_like_end() {
                         if let Some(p) = recognise(&self.frame) {
                             f.push((
                                 "C01 M-complete: canonical frame not delivered at its last byte",
@@ -118,7 +118,7 @@ impl Mon {
                     StepKind::Restart
                 }
                 Out::Err(_) => {
-                    if self.frame.len() % 4 == 0 {
+                    if self.tail_looks_like_end() {
                         if let Some(p) = recognise(&self.frame) {
                             let oom_ok = matches!(r, Out::Err(DecodeErr::OutOfMemory)) && self.cap.map_or(false, |c| p.len() > c);
                             if !oom_ok {
@@ -138,6 +138,11 @@ impl Mon {
                 Out::Panic(_) => unreachable!(),
             }
         }
+    }
+    /// cheap necessary condition for `recognise(frame).is_some()`
+    fn tail_looks_like_end(&self) -> bool {
+        let l = self.frame.len();
+        l % 4 == 0 && l >= 16 && self.frame[l - 8..l - 3] == [0x1b, 0x1b, 0x1b, 0x1b, 0x1a]
     }
     fn to_idle(&mut self) {
         self.in_frame = false;
@@ -197,12 +202,18 @@ pub fn mon_run(kind: crate::dec::BufKind, stream: &[u8], marks: &[usize]) -> Mon
     let mut d = crate::dec::new_dec(kind);
     let mut m = Mon::new(kind.cap());
     let mut r = MonRun { events: vec![], pos: vec![], findings: vec![], at_marks: vec![], kinds: vec![] };
+    // findings after the first diverging step are consequences of it and are not reported
+    let mut cut: Option<usize> = None;
+    let mut sink: Vec<Finding> = vec![];
     for (i, &b) in stream.iter().enumerate() {
         if marks.contains(&i) {
             r.at_marks.push((m.in_frame, m.unacc));
         }
         let o = d.push(b);
-        let k = m.byte(b, &o, &mut r.findings);
+        let k = if cut.is_none() { m.byte(b, &o, &mut r.findings) } else { m.byte(b, &o, &mut sink) };
+        if cut.is_none() && !r.findings.is_empty() {
+            cut = Some(r.findings.len());
+        }
         if k != StepKind::Quiet {
             r.kinds.push(k);
         }
@@ -227,7 +238,9 @@ pub fn mon_run(kind: crate::dec::BufKind, stream: &[u8], marks: &[usize]) -> Mon
         r.at_marks.push((m.in_frame, m.unacc));
     }
     let f = d.finalize();
-    m.finalize(&f, &mut r.findings);
+    if cut.is_none() {
+        m.finalize(&f, &mut r.findings);
+    }
     match f {
         Ok(Some(e)) => {
             r.events.push(Ev::Dec(e));
